@@ -1,6 +1,14 @@
 import Ibx.Bytes
 /-
-  Executable model of ONE POP3 session of pkg/server/pop3/handler.go (TLS disabled, ForceTLS off).
+  Executable model of ONE POP3 session of pkg/server/pop3/handler.go, and (at the end) of the sessions of one server
+  one after the other as far as they share the server's `tlsState`.
+
+  TLS.  `Cfg.tlsEnabled` is config.POP3.TLSEnabled (NewServer then holds a loaded key pair, tlsConfig != nil; otherwise
+  tlsConfig == nil), `Cfg.forceTLS` is config.POP3.ForceTLS, `St.tls` is `s.tlsState != nil` as the session sees it.
+  In the pinned source `tlsState` is a field of *Server* (`Cfg.scope = .perServer`, fact Gen.Pop3.tlsStateScope), so
+  the flag a new session finds is the one earlier sessions left; `.perSession` is the repaired variant.  The session
+  sees the lines its reader hands out, whether they arrived in the clear or inside TLS records; what an accepted STLS
+  does to the bytes on the wire is `sessionWire` at the end of this file.
 
   The session is a state machine over the input LINES that `readLine` (bufio.Reader.ReadString('\n'))
   hands to `parseCmd`, plus the way the input ends.  The message store enters in two places only:
@@ -24,17 +32,45 @@ deriving DecidableEq, Repr
 inductive Phase | auth | trans | quit
 deriving DecidableEq, Repr
 
-/-- the fields of `Session` that the handlers read or write -/
+/-- where `tlsState` is declared: in `Server` (one flag for every session of the process — the pinned source, finding
+    F-13tls) or in `Session` (the repair) -/
+inductive TlsScope | perServer | perSession
+deriving DecidableEq, Repr
+
+/-- the variant the pinned source has (pinned by `Tie.Pop3.tls_scope_tie`) -/
+def sourceScope : TlsScope := .perServer
+
+/-- what the handlers read of the embedded `*Server` -/
+structure Cfg where
+  tlsEnabled : Bool := false    -- config.TLSEnabled; NewServer: tlsConfig != nil iff this is set (else it returns an error)
+  forceTLS : Bool := false      -- config.ForceTLS: startSession wraps every accepted connection in tls.Server
+  scope : TlsScope := .perServer
+deriving DecidableEq, Repr
+
+/-- the fields of `Session` (and of the `*Server` embedded in it) that the handlers read or write -/
 structure St where
   phase : Phase
   user : Bytes
   msgs : List Msg        -- `messages`: the snapshot taken at login
   retain : List Bool     -- `retain`
   msgCount : Int         -- `msgCount` (a Go int: a wrong decrement would show as a negative number)
+  cfg : Cfg := {}        -- `s.Server.config`, `s.Server.tlsConfig`
+  tls : Bool := false    -- `s.tlsState != nil`
 deriving DecidableEq, Repr
 
-/-- `NewSession` -/
+/-- `NewSession` on a server without TLS -/
 def St.init : St := { phase := .auth, user := [], msgs := [], retain := [], msgCount := 0 }
+
+/-- `NewSession` on a server configured `c` whose `tlsState` is non-nil iff `srvTls` (what earlier sessions left;
+    meaningless when the flag is per session).  Under ForceTLS startSession records the state before the session starts. -/
+def St.start (c : Cfg) (srvTls : Bool) : St :=
+  { St.init with cfg := c, tls := c.forceTLS || (c.scope == .perServer && srvTls) }
+
+/-- CAPA lists STLS: `s.tlsConfig != nil && s.tlsState == nil && !s.config.ForceTLS` -/
+def offersStls (s : St) : Bool := s.cfg.tlsEnabled && !s.tls && !s.cfg.forceTLS
+
+/-- STLS in AUTHORIZATION is accepted: neither `!TLSEnabled || ForceTLS` nor `tlsState != nil` -/
+def acceptsStls (s : St) : Bool := s.cfg.tlsEnabled && !s.cfg.forceTLS && !s.tls
 
 /-! ### parseCmd -/
 
@@ -170,6 +206,7 @@ inductive Reply
   | okRetr (size : Nat) (lines : List Bytes)             -- "+OK <size> bytes follows", lines, "."
   | okTop (lines : List Bytes)                           -- "+OK Top of message follows", lines, "."
   | capa (lines : List Bytes)                            -- "+OK Capability list follows", lines, "."
+  | stlsBegin                                            -- "+OK Begin TLS Negotiation", then tls.Server + Handshake()
 deriving DecidableEq, Repr
 
 inductive Outcome
@@ -212,11 +249,15 @@ def retainAll (s : St) : St :=
 def loadMailbox (store : Bytes → List Msg) (s : St) : St :=
   retainAll { s with msgs := store s.user }
 
-/-- `authorizationHandler` (TLS disabled) -/
+/-- `authorizationHandler`.  STLS: the two refusals, else "+OK Begin TLS Negotiation", the handshake, a NEW bufio.Reader
+    on the tls.Conn and tlsState recorded; state and `user` are left as they are. -/
 def authH (store : Bytes → List Msg) (s : St) (v : Verb) (args : List Bytes) : Outcome :=
   match v with
   | .quit => .ok { s with phase := .quit } .ok []
-  | .stls => .ok s .err []
+  | .stls =>
+    if !s.cfg.tlsEnabled || s.cfg.forceTLS then .ok s .err []
+    else if s.tls then .ok s .err []
+    else .ok { s with tls := true } .stlsBegin []
   | .user =>
     if args.length > 0 then
       match args with
@@ -359,7 +400,7 @@ def step (store : Bytes → List Msg) (s : St) (line : Bytes) : Outcome :=
   match parseCmd line with
   | none => .panic
   | some (cmd, args) =>
-    if cmd = kCAPA then .ok s (.capa capaLines) []
+    if cmd = kCAPA then .ok s (.capa (if offersStls s then capaLines ++ [kSTLS] else capaLines)) []
     else if cmd = [] then .ok s .err []
     else
       match verbOf cmd with
@@ -383,7 +424,7 @@ structure Ev where
 inductive Term | eof | readError
 deriving DecidableEq, Repr
 
-inductive End | quit | eof | readError | sendError | panic | badState
+inductive End | quit | eof | readError | sendError | panic | badState | tlsFail
 deriving DecidableEq, Repr
 
 structure Trace where
@@ -565,5 +606,82 @@ structure TraceX where
 def sessionX (t : TermX) (flt : Bytes → SrcFault) (evs : List Ev) : TraceX :=
   let tr := session t.toTerm evs
   ⟨tr, faultsAlong flt St.init evs, byeOf t tr.ending⟩
+
+/-! ### TLS: sessions of one server, and what is on the wire
+
+  `startSession` under ForceTLS: `tls.Server(conn, s.tlsConfig)` and `tlsConn.ConnectionState()` BEFORE anything else.
+  With ForceTLS set and TLSEnabled unset `tlsConfig` is nil and that call dereferences it: a run-time panic in the
+  session goroutine on every connection (finding F-13tls2) — the explicit outcome `panic` below.
+
+  STLS: "+OK Begin TLS Negotiation" is written in the clear, then `tls.Server(s.conn, …).Handshake()` runs at once and
+  the session gets a NEW bufio.Reader on the tls.Conn.  Bytes the client sent behind the STLS line without waiting:
+  those the old reader had already buffered are thrown away with it; those still in the socket are read by the handshake
+  and make it fail.  After a failed handshake the handler writes "-ERR Command STLS is out of sequence" in the clear,
+  STILL installs the broken tls.Conn and records tlsState; the next read fails and so does the "-ERR" that reports it:
+  the session ends (nothing can be removed: it is in AUTHORIZATION). -/
+
+/-- one session of a server configured `c` whose tlsState is non-nil iff `srvTls`: greeting, then the loop -/
+def sessionTls (c : Cfg) (srvTls : Bool) (term : Term) (evs : List Ev) : Trace :=
+  if c.forceTLS && !c.tlsEnabled then ⟨[], [], .panic, St.start c srvTls⟩
+  else
+    let t := run term (St.start c srvTls) evs
+    ⟨.ok :: t.replies, t.removed, t.ending, t.final⟩
+
+/-- the server's flag after a session that ended in state `final` -/
+def serverTlsAfter (c : Cfg) (srvTls : Bool) (final : St) : Bool :=
+  match c.scope with
+  | .perServer => srvTls || final.tls
+  | .perSession => false
+
+/-- the sessions of one server process, one after the other (first session: tlsState == nil) -/
+def serve (c : Cfg) : Bool → List (Term × List Ev) → List Trace
+  | _, [] => []
+  | srv, (t, evs) :: rest =>
+    let tr := sessionTls c srv t evs
+    tr :: serve c (serverTlsAfter c srv tr.final) rest
+
+/-- `ReadString('\n')`: the next complete line (with its LF) and what follows; `none` = no LF left -/
+def takeLine (b : Bytes) : Option (Bytes × Bytes) :=
+  if b.contains 10 then some (b.takeWhile (· != 10) ++ [10], (b.dropWhile (· != 10)).drop 1) else none
+
+/-- the input left behind the line whose STLS was accepted -/
+def switchRest (store : Bytes → List Msg) : Nat → St → Bytes → Option Bytes
+  | 0, _, _ => none
+  | fuel + 1, s, inp =>
+    if s.phase = .quit then none
+    else
+      match takeLine inp with
+      | none => none
+      | some (line, rest) =>
+        match step store s line with
+        | .ok s' r _ => if r = .stlsBegin then some rest else switchRest store fuel s' rest
+        | _ => none
+
+/-- the connection as the network sees it (as `Ibx.Model.Smtp.Wire`) -/
+structure Wire where
+  pre : Bytes                       -- what the client sends before / instead of a TLS handshake
+  buffered : Nat                    -- bytes behind the accepted STLS line that the old reader had already buffered
+  tlsOpen : Bytes → Option Bytes    -- crypto/tls: raw bytes reaching tls.Server ↦ the plaintext it yields; none = handshake fails
+
+/-- the loop iterations a byte stream gives rise to (the store does not change meanwhile; every reply can be written) -/
+def evsOf (store : Bytes → List Msg) (b : Bytes) : List Ev :=
+  (cutLines b).1.map (fun l => { store := store, line := l, sendOk := true })
+
+/-- a whole session from the bytes on the wire -/
+def sessionWire (c : Cfg) (srvTls : Bool) (term : Term) (store : Bytes → List Msg) (w : Wire) : Trace :=
+  if c.forceTLS then
+    match w.tlsOpen w.pre with
+    | none => ⟨[], [], (if c.tlsEnabled then .tlsFail else .panic), St.start c srvTls⟩
+    | some q => sessionTls c srvTls term (evsOf store q)
+  else
+    match switchRest store (w.pre.length + 1) (St.start c srvTls) w.pre with
+    | none => sessionTls c srvTls term (evsOf store w.pre)
+    | some rest =>
+      let consumed := w.pre.take (w.pre.length - rest.length)
+      match w.tlsOpen (rest.drop w.buffered) with
+      | none =>
+        let t := sessionTls c srvTls .eof (evsOf store consumed)
+        ⟨t.replies ++ [.err], t.removed, .tlsFail, t.final⟩
+      | some q => sessionTls c srvTls term (evsOf store (consumed ++ q))
 
 end Ibx.Model.Pop3
